@@ -132,6 +132,16 @@ Theorem C07_untarindex_cancel_sound : forall n csize fetch_ok boundary dec_ok ca
 Proof. exact untarindex_cancel_sound. Qed.
 Print Assumptions C07_untarindex_cancel_sound.
 
+(* ... and UnTarIndex cannot get stuck: as long as some goroutine has not returned one of them can take
+   a step (with at least one worker and a channel capacity of at least one, as in the code), so after a
+   cancellation or an error every goroutine eventually leaves and g.Wait() returns. *)
+Theorem C07_untarindex_deadlock_free : forall n csize fetch_ok boundary dec_ok cap can_cancel nw sched,
+  let s := run (ustep n csize fetch_ok boundary dec_ok cap true can_cancel) sched (uinit nw) in
+  0 < nw -> 0 < cap -> ufinal s = false ->
+  exists t, ustep n csize fetch_ok boundary dec_ok cap true can_cancel s t <> None.
+Proof. exact untarindex_deadlock_free. Qed.
+Print Assumptions C07_untarindex_deadlock_free.
+
 (* Before the fix: refuted for every non-empty index whose stream start is an element boundary --
    nil with nothing fetched and nothing unpacked; the fixed code returns Interrupted on the same schedule. *)
 Theorem C07_untarindex_prefix_refuted : forall n csize fetch_ok boundary dec_ok cap,
